@@ -1,11 +1,12 @@
 import Exetera.Model.Basic
+import Exetera.Model.Transforms
 import Exetera.Gen.CsvConstants
 /-!
   Model of the CSV reader (with the fixes D26, NC05a, NC05b, D27 applied — see fixes/):
 
     exetera/core/csv_reader_speedup.py   fast_csv_reader (the byte-level FSM, `@exetera_njit`)          → `fastCsvReader`
                                          read_file_using_fast_csv_reader (re-entrant window driver)     → `readFile`
-    exetera/io/field_importers.py        IndexedStringImporter.import_part / FixedStringImporter        → `Imp.importPart`
+    exetera/io/field_importers.py        every importer's import_part (typed ones: Model/Transforms.lean) → `Imp.importPart`
     exetera/io/parsers.py                read_csv_with_schema_dict (budgets, include/exclude, index_map) → `readCsv`
 
   Conventions.
@@ -185,65 +186,122 @@ def fastCsvReader (src : Bytes) (start : Nat) (inds : List (List Nat)) (vals : L
         | .error e => .error e
         | .ok s => .ok s.out
 
-/-! ### field importers -/
+/-! ### field importers
 
+    Every importer of `field_importers.py` is driven through the same `import_part(column_inds, column_vals, column_offsets,
+    col_idx, written_row_count)` call, once per kernel call. `IndexedStringImporter` is modelled here; every schema-typed
+    importer is the corresponding model of `Model/Transforms.lean` (property C06) applied to the `Chunk` that this call
+    hands it: row `col_idx` of `column_inds`, the flat `column_vals`, `column_offsets[col_idx]`, the column's budget and
+    `written_row_count`. -/
+
+/-- the text → number conversion of a numeric column, as data: Python `int()` followed by the dtype's range (modelled,
+    `Transforms.parseIntRange`), or a finite table `text ↦ value token` (what `float()` / numpy `astype` return on the texts
+    of the case; texts not listed are not numbers) -/
+inductive NumParser where
+  | intRange (lo hi : Int)
+  | table (t : List (Bytes × Option String))
+  deriving Repr, DecidableEq, Inhabited
+
+/-- a stored number: an integer, or the token of a float -/
+inductive NumVal where
+  | int (v : Int)
+  | tok (s : String)
+  deriving Repr, DecidableEq, Inhabited
+
+def NumParser.parse : NumParser → Bytes → Transforms.Parsed NumVal
+  | .intRange lo hi, bs =>
+    match Transforms.parseIntRange lo hi bs with
+    | .val v => .val (.int v)
+    | .bad => .bad
+    | .overflow => .overflow
+  | .table t, bs =>
+    match t.find? (fun kv => kv.1 == bs) with
+    | some (_, some v) => .val (.tok v)
+    | _ => .bad
+
+/-- the importer definitions of a schema (`String()`, `String(fixed_length)`, `Categorical(categories, allow_freetext)`,
+    `Numeric(dtype, invalid_value, validation_mode)`, `DateTime()`, `Date()`) -/
 inductive FieldKind where
   | indexed
   | fixed (n : Nat)
-  | int                      -- Numeric('int32'), validation_mode 'allow_empty': only digit strings and empty cells are modelled
+  | categorical (cats : List (Bytes × Int))
+  | leaky (cats : List (Bytes × Int))
+  | bool (mode : Transforms.Mode) (invalid : Bool)
+  | numeric (p : NumParser) (mode : Transforms.Mode) (invalidText : Bytes) (invalidVal : NumVal)
+  | datetime
+  | date
   deriving Repr, DecidableEq, Inhabited
 
-/-- destination field as the importer builds it: an indexed string field (`idx`, `vals`; `acc` = `chunk_accumulated`)
-    or a fixed string field (`rows`) -/
+/-- the destination fields as the importer builds them.
+    * indexed string: `idx`, `vals` (`acc` = `chunk_accumulated`)
+    * fixed string: `data` (the flat `S<n>` buffer)
+    * categorical: `codes`; leaky categorical: `codes` and the `_freetext` companion `idx`, `vals` (`acc` =
+      `freetext_index_accumulated`)
+    * bool: `bools`, `_valid` = `valids`; int / float: `nums`, `_valid` = `valids` (nothing in strict mode)
+    * datetime / date: `codes` (µs since the epoch), `_day` = `days`, `_set` = `valids` -/
 structure Imp where
   kind : FieldKind
   idx : List Nat := [0]
   vals : Bytes := []
   acc : Nat := 0
-  rows : List Bytes := []
-  nums : List Nat := []
+  data : Bytes := []
+  codes : List Int := []
+  nums : List NumVal := []
+  bools : List Bool := []
   valids : List Bool := []
+  days : List Bytes := []
   deriving Repr, DecidableEq, Inhabited
 
-/-- decimal value of a digit string (`none` for anything else: not modelled, see C06) -/
-def parseDigits : Bytes → Nat → Option Nat
-  | [], acc => some acc
-  | b :: bs, acc => if 48 ≤ b ∧ b ≤ 57 then parseDigits bs (acc * 10 + (b - 48)) else none
+/-- what `import_part` of a schema-typed importer sees of the staging buffers -/
+def chunkOf (r : List Nat) (vals : List Nat) (off cap n col ncols : Nat) : Transforms.Chunk :=
+  { inds := r, vals := vals, off := off, cap := cap, rows := n, col := col, ncols := ncols }
 
-/-- `transform_int` (mode allow_empty, invalid_value 0) on rows `i, i+1, …`: the whole cell is converted (`width` is the
-    widest cell of the chunk, 0 for a chunk without rows — fix D27) -/
-def intRows (inds : List Nat) (vals : List Nat) (off : Nat) : Nat → Nat → Except Err (List (Nat × Bool))
-  | _, 0 => .ok []
-  | i, k + 1 =>
-    match getE inds i "column_inds[col_idx,i]", getE inds (i + 1) "column_inds[col_idx,i+1]" with
-    | .error e, _ => .error e
-    | _, .error e => .error e
-    | .ok a, .ok b =>
-      if a + off < b + off ∧ vals.length < b + off then .error (.oob "column_vals[c]")
-      else
-        let cell := slice vals (a + off) (b + off)
-        match (if cell.isEmpty then some (0, false) else (parseDigits cell 0).map (fun v => (v, true))) with
-        | none => .error (.valueError "not a digit string (int parsing is not modelled)")
-        | some x =>
-          match intRows inds vals off (i + 1) k with
-          | .error e => .error e
-          | .ok rest => .ok (x :: rest)
-
-/-- `fixed_string_transform` rows `i, i+1, …` (`k` rows left) -/
-def fixedRows (inds : List Nat) (vals : List Nat) (off strlen : Nat) : Nat → Nat → Except Err (List Bytes)
-  | _, 0 => .ok []
-  | i, k + 1 =>
-    match getE inds i "column_inds[col_idx,i]", getE inds (i + 1) "column_inds[col_idx,i+1]" with
-    | .error e, _ => .error e
-    | _, .error e => .error e
-    | .ok a, .ok b =>
-      let s := a + off
-      let e := min (b + off) (s + strlen)
-      if s < e ∧ vals.length < e then .error (.oob "column_vals[c]")
-      else
-        match fixedRows inds vals off strlen (i + 1) k with
-        | .error e => .error e
-        | .ok rest => .ok (slice vals s e :: rest)
+/-- `import_part` of the schema-typed importers on their chunk: each is one step of the corresponding `…Import` fold of
+    `Model/Transforms.lean` -/
+def Imp.typedPart (imp : Imp) (ch : Transforms.Chunk) : Except Err Imp :=
+  match imp.kind with
+  | .indexed => .ok imp
+  | .fixed strlen =>
+    match Transforms.fixedStringTransform ch strlen with
+    | .error e => .error e
+    | .ok m => .ok { imp with data := imp.data ++ m }
+  | .categorical cats =>
+    match Transforms.categoricalTransform (Transforms.getByteMap cats) ch with
+    | .error e => .error e
+    | .ok chunk => .ok { imp with codes := imp.codes ++ chunk }
+  | .leaky cats =>
+    match Transforms.leakyImportPart (Transforms.getByteMap cats)
+            { data := imp.codes, ftIndices := imp.idx, ftValues := imp.vals, acc := imp.acc } ch with
+    | .error e => .error e
+    | .ok st => .ok { imp with codes := st.data, idx := st.ftIndices, vals := st.ftValues, acc := st.acc }
+  | .bool mode invalid =>
+    -- `elements = np.zeros(written_row_count)`, `validity = np.ones(written_row_count)`
+    match Transforms.boolTransform ch mode invalid ch.rows ch.rows with
+    | .error e => .error e
+    | .ok (el, va) => .ok { imp with bools := imp.bools ++ el, valids := imp.valids ++ va }
+  | .numeric p mode invalidText invalidVal =>
+    match Transforms.cellsE ch with
+    | .error e => .error e
+    | .ok cells =>
+      match Transforms.transformNum p.parse mode invalidText invalidVal cells with
+      | .error e => .error e
+      | .ok (vs, fs) => .ok { imp with nums := imp.nums ++ vs, valids := imp.valids ++ fs.getD [] }
+  | .datetime =>
+    match Transforms.cellsE ch with
+    | .error e => .error e
+    | .ok cells =>
+      match Transforms.cellsMapE Transforms.datetimeCell cells with
+      | .error e => .error e
+      | .ok rs => .ok { imp with codes := imp.codes ++ rs.map (·.1), days := imp.days ++ rs.map (·.2.1),
+                                 valids := imp.valids ++ rs.map (·.2.2) }
+  | .date =>
+    match Transforms.cellsE ch with
+    | .error e => .error e
+    | .ok cells =>
+      match Transforms.cellsMapE Transforms.dateCell cells with
+      | .error e => .error e
+      | .ok rs => .ok { imp with codes := imp.codes ++ rs.map (·.1), days := imp.days ++ rs.map (·.2.1),
+                                 valids := imp.valids ++ rs.map (·.2.2) }
 
 /-- `import_part(column_inds, column_vals, column_offsets, col_idx, written_row_count)` for `written_row_count = n ≥ 0` -/
 def Imp.importPart (imp : Imp) (inds : List (List Nat)) (vals : List Nat) (offs : List Nat) (c n : Nat) : Except Err Imp :=
@@ -257,14 +315,13 @@ def Imp.importPart (imp : Imp) (inds : List (List Nat)) (vals : List Nat) (offs 
       | .error e => .error e
       | .ok tot =>
         .ok { imp with idx := imp.idx ++ ((r.take (n + 1)).map (· + imp.acc)).drop 1, vals := imp.vals ++ slice vals off (off + tot), acc := imp.acc + tot }
-    | .fixed strlen =>
-      match fixedRows r vals off strlen 0 n with
+    | .leaky _ =>
+      -- `col_count = column_offsets[col_idx + 1] - column_offsets[col_idx]` sizes the free-text staging array
+      match getE offs (c + 1) "column_offsets[col_idx+1]" with
       | .error e => .error e
-      | .ok rows => .ok { imp with rows := imp.rows ++ rows }
-    | .int =>
-      match intRows r vals off 0 n with
-      | .error e => .error e
-      | .ok xs => .ok { imp with nums := imp.nums ++ xs.map (·.1), valids := imp.valids ++ xs.map (·.2) }
+      | .ok off1 => imp.typedPart (chunkOf r vals off (off1 - off) n c inds.length)
+    -- (`cap` is read by the leaky importer only; the other transforms never look at it)
+    | _ => imp.typedPart (chunkOf r vals off vals.length n c inds.length)
 
 /-- `for ith, i_c in enumerate(index_map): field_importer_list[ith].import_part(…, i_c, written_row_count)` -/
 def importAll (inds : List (List Nat)) (vals : List Nat) (offs : List Nat) (n : Nat) :
@@ -360,11 +417,20 @@ def readFile (file : Bytes) (crs ncols : Nat) (offs : List Nat) (indexMap : List
 
 /-! ### `read_csv_with_schema_dict` -/
 
+/-- `len(k)` of a `str` key given as UTF-8 bytes: the number of code points -/
+def utf8Len (bs : Bytes) : Nat := bs.countP (fun b => !(decide (128 ≤ b) && decide (b < 192)))
+
 /-- `_field_size` of the importer definition -/
 def FieldKind.fieldSize : FieldKind → Nat
   | .indexed => Gen.Csv.INDEXED_STRING_FIELD_SIZE
-  | .fixed n => n
-  | .int => 20
+  | .fixed n => if n = 0 then Gen.Csv.INDEXED_STRING_FIELD_SIZE else n     -- `if fixed_length:`
+  | .categorical cats => (cats.map (fun kv => utf8Len kv.1)).foldl max 0
+  | .leaky cats => (cats.map (fun kv => utf8Len kv.1)).foldl max 0
+  | .bool _ _ => 5
+  | .numeric (.intRange _ _) _ _ _ => 20
+  | .numeric (.table _) _ _ _ => 30
+  | .datetime => 32
+  | .date => 10
 
 def kindOf (schema : List (String × FieldKind)) (name : String) : FieldKind :=
   match schema.lookup name with
